@@ -46,6 +46,7 @@ def cases(ctx):
         for n in big:
             out.append((f"{n} [{tag}]", C.test_pdb_text(n), ["-p", pf], {"keeppen": keeppen}))
         out.append((f"nterm-asp [{tag}]", nterm, ["-p", pf], {"keeppen": keeppen}))
+    out += runbank.kit_cases(ctx, every=3 if ctx.thorough() else 18)
     for n in (["conf-alt-AB", "conf-model-missing-atoms"] if not ctx.thorough() else
               ["conf-alt-AB", "conf-alt-BC", "conf-alt-AB-mutant", "conf-model-missing-atoms", "conf-model-mutant"]):
         out.append((n, C.test_pdb_text(n), []))
